@@ -678,3 +678,182 @@ Proof.
   - intros bytes. now apply model_passes_spec_any_bytes.
   - intros v Hv. now apply model_passes_spec_roundtrip.
 Qed.
+
+(* ------------------------------------------------------------------ histories: decoded values are independent *)
+(* several decodes in a row, all decoded values read back afterwards: the round trip holds for
+   the whole history *)
+Lemma roundtrip_history : forall parse s vs,
+  wf_schema s -> Forall (wf_value parse s) vs ->
+  decode_history parse s (map (encode s) vs) = map Ok vs.
+Proof.
+  intros parse s vs Hs Hv. unfold decode_history. induction Hv as [|v vs Hv1 _ IH]; [reflexivity|].
+  cbn [map]. rewrite IH. now rewrite roundtrip.
+Qed.
+
+(* later decodes do not change what earlier decodes produced *)
+Lemma history_prefix_stable : forall parse s bs later,
+  firstn (length bs) (decode_history parse s (bs ++ later)) = decode_history parse s bs.
+Proof.
+  intros parse s bs later. unfold decode_history. rewrite map_app.
+  rewrite <- (map_length (decode parse s) bs) at 1.
+  rewrite firstn_app, Nat.sub_diag, firstn_all. cbn [firstn]. now rewrite app_nil_r.
+Qed.
+
+(* position i of a history holds the value encoded at position i, whatever the other inputs of
+   the history are (other values, rejected or crashing inputs, before or after) *)
+Lemma history_position : forall parse s bs i v,
+  wf_schema s -> wf_value parse s v -> nth_error bs i = Some (encode s v) ->
+  nth_error (decode_history parse s bs) i = Some (Ok v).
+Proof.
+  intros parse s bs i v Hs Hv Hn. unfold decode_history.
+  rewrite (map_nth_error (decode parse s) i bs Hn). now rewrite roundtrip.
+Qed.
+
+(* histories that interleave encodings of well-formed values with rejected inputs: the accepted
+   values, read back at the end, are exactly the encoded ones, in order *)
+Inductive hitem := HVal (v : list fval) | HRaw (b : list N).
+Definition hitem_bytes (s : mschema) (it : hitem) : list N :=
+  match it with HVal v => encode s v | HRaw b => b end.
+Fixpoint hitem_vals (its : list hitem) : list (list fval) :=
+  match its with
+  | [] => []
+  | HVal v :: t => v :: hitem_vals t
+  | HRaw _ :: t => hitem_vals t
+  end.
+Fixpoint accepted (rs : list res) : list (list fval) :=
+  match rs with
+  | [] => []
+  | Ok v :: t => v :: accepted t
+  | _ :: t => accepted t
+  end.
+Lemma history_rejected_interleaved : forall parse s its,
+  wf_schema s ->
+  Forall (fun it => match it with
+                    | HVal v => wf_value parse s v
+                    | HRaw b => forall v, decode parse s b <> Ok v
+                    end) its ->
+  accepted (decode_history parse s (map (hitem_bytes s) its)) = hitem_vals its.
+Proof.
+  intros parse s its Hs H. unfold decode_history. induction H as [|it its H1 _ IH]; [reflexivity|].
+  cbn [map]. destruct it as [v|b]; cbn [hitem_bytes hitem_vals].
+  - rewrite roundtrip by assumption. cbn [accepted]. now rewrite IH.
+  - destruct (decode parse s b) as [v| |] eqn:E; cbn [accepted]; [exfalso; now apply (H1 v)|exact IH|exact IH].
+Qed.
+
+(* soundness of the boolean equalities used by the executable property *)
+Lemma list_eqb_eq : forall A (eq : A -> A -> bool),
+  (forall x y, eq x y = true -> x = y) -> forall a b, list_eqb eq a b = true -> a = b.
+Proof.
+  intros A eq Heq a. induction a as [|x a IH]; intros [|y b] H; cbn in H; try discriminate; [reflexivity|].
+  apply andb_prop in H. destruct H as [H1 H2]. f_equal; [now apply Heq|now apply IH].
+Qed.
+Lemma list_eqb_refl : forall A (eq : A -> A -> bool),
+  (forall x, eq x x = true) -> forall a, list_eqb eq a a = true.
+Proof. intros A eq Heq a. induction a as [|x a IH]; [reflexivity|]. cbn. now rewrite Heq, IH. Qed.
+Lemma bytes_eqb_eq : forall a b, bytes_eqb a b = true -> a = b.
+Proof. apply list_eqb_eq. intros x y H. now apply N.eqb_eq. Qed.
+Lemma bytes_eqb_refl : forall a, bytes_eqb a a = true.
+Proof. apply list_eqb_refl. apply N.eqb_refl. Qed.
+Lemma fval0_eqb_eq : forall a b, fval0_eqb a b = true -> a = b.
+Proof.
+  intros [x|x|x|x] [y|y|y|y] H; cbn in H; try discriminate; f_equal.
+  - now apply N.eqb_eq.
+  - now apply bytes_eqb_eq.
+  - revert H. apply list_eqb_eq. exact bytes_eqb_eq.
+  - revert H. apply list_eqb_eq. intros [k1 b1] [k2 b2] H. cbn [fst snd] in H.
+    apply andb_prop in H. destruct H as [H1 H2]. apply N.eqb_eq in H1. apply bytes_eqb_eq in H2. now subst.
+Qed.
+Lemma fval0_eqb_refl : forall a, fval0_eqb a a = true.
+Proof.
+  intros [x|x|x|x]; cbn.
+  - apply N.eqb_refl.
+  - apply bytes_eqb_refl.
+  - apply list_eqb_refl. exact bytes_eqb_refl.
+  - apply list_eqb_refl. intros [k b]. cbn [fst snd]. now rewrite N.eqb_refl, bytes_eqb_refl.
+Qed.
+Lemma fval_eqb_eq : forall a b, fval_eqb a b = true -> a = b.
+Proof.
+  intros [x|x] [y|y] H; cbn in H; try discriminate; f_equal.
+  - now apply fval0_eqb_eq.
+  - revert H. apply list_eqb_eq. exact fval0_eqb_eq.
+Qed.
+Lemma fval_eqb_refl : forall a, fval_eqb a a = true.
+Proof. intros [x|x]; cbn; [apply fval0_eqb_refl|apply list_eqb_refl; exact fval0_eqb_refl]. Qed.
+Lemma res_eqb_eq : forall a b, res_eqb a b = true -> a = b.
+Proof.
+  intros [x| |] [y| |] H; cbn in H; try discriminate; try reflexivity.
+  f_equal. revert H. apply list_eqb_eq. exact fval_eqb_eq.
+Qed.
+Lemma res_eqb_refl : forall a, res_eqb a a = true.
+Proof. intros [x| |]; cbn; try reflexivity. apply list_eqb_refl. exact fval_eqb_refl. Qed.
+
+(* what the executable property of a history says about the values re-read at the end *)
+Definition step_ok (st : hstep) : Prop :=
+  step_obs st <> Panic /\
+  (step_kind st = KRoundTrip -> exists v, step_orig st = Some v /\ step_obs st = Ok v).
+Lemma spec_model_step : forall s orc st, spec_model (step_case s orc st) = true -> step_ok st.
+Proof.
+  intros s orc [k bytes obs valid orig] H. unfold spec_model, step_case in H.
+  cbn [m_kind m_obs m_valid m_orig] in H. apply andb_prop in H. destruct H as [H1 H2].
+  apply spec_gen_sound in H1. destruct H1 as [P _]. split; cbn [step_obs step_kind step_orig].
+  - intros E. rewrite E in P. now apply P.
+  - intros ->. destruct orig as [v|]; [|discriminate]. exists v. split; [reflexivity|now apply res_eqb_eq].
+Qed.
+Lemma spec_hist_sound : forall s orc steps, spec_hist s orc steps = true -> Forall step_ok steps.
+Proof.
+  intros s orc steps H. unfold spec_hist in H. rewrite forallb_forall in H.
+  apply Forall_forall. intros st Hin. apply (spec_model_step s orc). now apply H.
+Qed.
+(* in the form of [roundtrip_history]: a history of round-trip steps passes the executable
+   property only if the re-read values are exactly the values that were encoded *)
+Lemma spec_hist_roundtrip_form : forall s orc steps vs,
+  spec_hist s orc steps = true ->
+  Forall (fun st => step_kind st = KRoundTrip) steps ->
+  map step_orig steps = map Some vs ->
+  map step_obs steps = map Ok vs.
+Proof.
+  intros s orc steps vs H. apply spec_hist_sound in H. revert vs.
+  induction H as [|st steps [_ H1] _ IH]; intros vs K E.
+  - destruct vs; [reflexivity|discriminate].
+  - destruct vs as [|v vs]; [discriminate|]. cbn [map] in *. inversion K as [|? ? K1 K2]; subst.
+    injection E as E1 E2. destruct (H1 K1) as [v' [O1 O2]]. rewrite O1 in E1. injection E1 as ->.
+    rewrite O2. f_equal. now apply IH.
+Qed.
+Lemma spec_hist_gen_sound : forall steps, spec_hist_gen steps = true ->
+  Forall (fun st => match st with (k, o, valid) =>
+            o <> OPanic /\ (o = OOk -> valid = true) /\ (k = KRoundTrip -> o = OOk) end) steps.
+Proof.
+  intros steps H. unfold spec_hist_gen in H. rewrite forallb_forall in H. apply Forall_forall.
+  intros [[k o] valid] Hin. apply spec_gen_sound. now apply (H _ Hin).
+Qed.
+
+(* the model's own histories pass the executable property *)
+Definition model_step (parse : N -> list N -> option (list N)) (s : mschema) (it : hitem) : hstep :=
+  match it with
+  | HVal v => HStep KRoundTrip (encode s v) (decode parse s (encode s v)) true (Some v)
+  | HRaw b => HStep KCorrupt b (decode parse s b) true None
+  end.
+Lemma model_history_passes_spec : forall orc s its,
+  In s all_schemas ->
+  Forall (fun it => match it with HVal v => wf_value (orc_lookup orc) s v | HRaw _ => True end) its ->
+  spec_hist s orc (map (model_step (orc_lookup orc) s) its) = true.
+Proof.
+  intros orc s its Hs H. destruct (in_all_schemas s Hs) as [A B].
+  unfold spec_hist. rewrite forallb_forall. intros st Hin. apply in_map_iff in Hin.
+  destruct Hin as [it [<- Hin]]. rewrite Forall_forall in H. specialize (H it Hin).
+  destruct it as [v|b]; unfold model_step, step_case, spec_model; cbn [m_kind m_obs m_valid m_orig].
+  - rewrite roundtrip by assumption. cbn [class_of spec_gen]. now rewrite res_eqb_refl.
+  - destruct (model_passes_spec_any_bytes (orc_lookup orc) s b A) as [C _]. now rewrite C.
+Qed.
+
+Example history_example :
+  let parse := (fun (_ : N) (b : list N) => Some b) in
+  let a := [V0 (VB (hb 16 0xAAAAAA))] in
+  let b := [V0 (VB (hb 16 0xBBBBBB))] in
+  Forall (wf_value parse S_tbtc_Heartbeat) [a; b] /\
+  decode_history parse S_tbtc_Heartbeat [encode S_tbtc_Heartbeat a; [1; 2]; encode S_tbtc_Heartbeat b]
+  = [Ok a; Err; Ok b].
+Proof.
+  intros parse a b. split; [|vm_compute; reflexivity].
+  repeat constructor; unfold small; vm_compute; reflexivity.
+Qed.
